@@ -10,6 +10,7 @@
 package c20
 
 import (
+	"sync/atomic"
 	"crypto/sha256"
 	"encoding/hex"
 	"fmt"
@@ -92,10 +93,14 @@ type spec struct {
 	value  *big.Int
 	token  bool // transfer the token aSecond instead of the native coin
 	maxLns int
+	norec  bool // evm.Config.NoRecursion
+	preimg bool // evm.Config.EnablePreimageRecording
+	cancel int  // >0: the tracer calls EVM.Cancel() when it sees step number `cancel`
+	fresh  bool // the call goes to an address that does not exist (aFresh) instead of aMain
 }
 
 func baseUniverse() []common.Address {
-	u := []common.Address{aSender, aMain, aSecond, aFresh, aPlain, common.EmptyAddress}
+	u := []common.Address{aSender, aMain, aSecond, aFresh, aPlain, common.EmptyAddress, common.BytesToAddress([]byte("contract"))}
 	hs := make([]common.Address, 0, len(helperCode))
 	for a := range helperCode {
 		hs = append(hs, a)
@@ -106,6 +111,27 @@ func baseUniverse() []common.Address {
 		u = append(u, common.BytesToAddress([]byte{byte(i)}))
 	}
 	return u
+}
+
+var (
+	rootCache   = map[string]common.Hash{}
+	rootCacheMu sync.Mutex
+)
+
+// the root of the world before the run (a function of mode, code and code2 only)
+func rootOfWorld(sp *spec) common.Hash {
+	k := sp.mode + "|" + string(sp.code) + "|" + string(sp.code2)
+	rootCacheMu.Lock()
+	defer rootCacheMu.Unlock()
+	if h, ok := rootCache[k]; ok {
+		return h
+	}
+	if len(rootCache) > 4000 {
+		rootCache = map[string]common.Hash{}
+	}
+	h := buildWorld(sp).IntermediateRoot(false)
+	rootCache[k] = h
+	return h
 }
 
 func buildWorld(sp *spec) *state.StateDB {
@@ -127,13 +153,19 @@ func buildWorld(sp *spec) *state.StateDB {
 		st.SetCode(a, helperCode[a])
 		st.SetNonce(a, 1)
 	}
-	if sp.mode == "call" {
+	if sp.mode != "create" && sp.mode != "rtcreate" {
 		st.CreateAccount(aMain)
 		st.SetCode(aMain, sp.code)
 		st.SetNonce(aMain, 1)
 		st.AddBalance(aMain, big10(21))
 		st.SetTokenBalance(aMain, aSecond, big10(20))
 		st.SetState(aMain, common.BigToHash(big.NewInt(3)), []byte{0x2a})
+	}
+	if sp.mode == "rtexec" {
+		// runtime.Execute installs the code at its own fixed address before the call; that is set-up, not execution
+		rt := common.BytesToAddress([]byte("contract"))
+		st.CreateAccount(rt)
+		st.SetCode(rt, sp.code)
 	}
 	if len(sp.code2) > 0 {
 		st.CreateAccount(aSecond)
@@ -218,6 +250,16 @@ func (o obs) diff(p obs, u []common.Address) string {
 
 // ---- the tracer -------------------------------------------------------------------------------
 
+// a chain of 100 headers for GetHashFn
+type fakeChain struct{}
+
+func (fakeChain) GetHeader(h uint64) *types.Header {
+	if h > 99 {
+		return nil
+	}
+	return &types.Header{Height: h, ParentHash: common.BytesToHash([]byte{byte(h), 0x77})}
+}
+
 type pend struct {
 	c    *evm.Contract
 	o    obs
@@ -243,7 +285,12 @@ type tracer struct {
 	simFrames int
 	innerFail string
 	work      uint64 // Σ cost of steps that do not enter a frame (gas really burnt by the interpreter)
+	cancelAt  int
+	cancelled bool
 }
+
+// census of executed opcodes over the whole process (what the generator really reached)
+var opSeen [256]int64
 
 func (t *tracer) emit(s string) {
 	if len(t.lines) >= t.maxLines {
@@ -299,6 +346,13 @@ func (t *tracer) CaptureState(env *evm.EVM, pc uint64, op evm.OpCode, gas, cost 
 		t.emit(fmt.Sprintf("enter d=%d gas=%d code=%s", depth, gas, hx.Hex(contract.Code)))
 	}
 	t.steps++
+	if err == nil {
+		atomic.AddInt64(&opSeen[int(op)], 1)
+	}
+	if t.cancelAt > 0 && t.steps == t.cancelAt {
+		env.Cancel()
+		t.cancelled = true
+	}
 	if memory.Len() > 0 {
 		t.memGrew = true
 	}
@@ -373,6 +427,9 @@ type out struct {
 	logs         string
 	panicSite    string
 	work         uint64
+	byteCodeGas  uint64
+	otxs         int
+	cancelled    bool
 }
 
 func statusOf(err error) string {
@@ -385,23 +442,33 @@ func statusOf(err error) string {
 	return "failed"
 }
 
-var timeLimit = 2 * time.Second
+// wall-clock backstop; a run that hits it is a failure only if it also did more work than it was given gas for
+var timeLimit = 5 * time.Second
 
 func execute(sp *spec) (o out) {
 	quiet.Do(func() { log.Root().SetHandler(log.DiscardHandler()) })
-	o.rootBefore = buildWorld(sp).IntermediateRoot(false)
+	o.rootBefore = rootOfWorld(sp)
 	st := buildWorld(sp)
 	u := baseUniverse()
 	before := observe(st, u, nil)
 	o.zeroBefore = zeroTokenKeys(st, u)
 	o.senderBefore = obsAddr(st, aSender, false)
-	tr := &tracer{st: st, maxLines: sp.maxLns, frames: map[int]*evm.Contract{}, pends: map[int]*pend{}, universe: u}
+	tr := &tracer{st: st, maxLines: sp.maxLns, frames: map[int]*evm.Contract{}, pends: map[int]*pend{}, universe: u, cancelAt: sp.cancel}
 	cfg := &runtime.Config{
 		Origin: aSender, Coinbase: addr("0xc01b"), BlockNumber: big.NewInt(100), Time: big.NewInt(1_600_000_000),
 		Difficulty: big.NewInt(1), GasLimit: sp.gas, GasPrice: big.NewInt(1), Value: sp.value, State: st,
-		EVMConfig: evm.Config{Debug: true, Tracer: tr},
+		EVMConfig: evm.Config{Debug: true, Tracer: tr, NoRecursion: sp.norec, EnablePreimageRecording: sp.preimg},
 	}
 	vm := runtime.NewEnv(cfg)
+	if sp.mode == "utxocall" {
+		// the context the application builds: NewEVMContext over a header and a chain (BLOCKHASH walks the chain: GetHashFn)
+		hdr := &types.Header{Height: 100, Time: 1_600_000_000, GasLimit: sp.gas, Coinbase: addr("0xc01b"), ParentHash: common.BytesToHash([]byte{99})}
+		vm = evm.NewEVM(evm.NewEVMContext(hdr, fakeChain{}, nil, 1), st, cfg.EVMConfig)
+	}
+	target := aMain
+	if sp.fresh {
+		target = aFresh
+	}
 	token := common.EmptyAddress
 	if sp.token {
 		token = aSecond
@@ -417,11 +484,29 @@ func execute(sp *spec) (o out) {
 	var mu sync.Mutex
 	timer := time.AfterFunc(timeLimit, func() { mu.Lock(); fired = true; mu.Unlock(); vm.Cancel() })
 	var err error
-	if sp.mode == "create" {
+	noGas := false
+	switch sp.mode {
+	case "create":
 		o.ret, _, o.gasLeft, err = vm.Create(evm.AccountRef(aSender), sp.code, sp.gas, sp.value)
-	} else {
-		o.ret, o.gasLeft, _, err = vm.Call(evm.AccountRef(aSender), aMain, token, sp.input, sp.gas, sp.value)
+	case "utxocall":
+		// the entry point app/state_transition.go transitOutputs uses for contract calls: Reset, SetToken, UTXOCall
+		vm.Reset(types.NewMessage(aSender, nil, token, st.GetNonce(aSender), nil, 0, big.NewInt(1), nil))
+		vm.SetToken(token)
+		vm.AddOtx(types.GenBalanceRecord(aSender, aMain, types.AccountAddress, types.AccountAddress, types.TxTransfer, token, big.NewInt(0)))
+		o.ret, o.gasLeft, o.byteCodeGas, err = vm.UTXOCall(evm.AccountRef(aSender), target, token, sp.input, sp.gas, sp.value)
+	case "rtcall":
+		o.ret, o.gasLeft, err = runtime.Call(aMain, sp.input, cfg)
+	case "rttoken":
+		o.ret, o.gasLeft, err = runtime.TokenCall(aMain, sp.input, cfg, aSecond)
+	case "rtcreate":
+		o.ret, _, o.gasLeft, err = runtime.Create(sp.code, cfg)
+	case "rtexec":
+		o.ret, _, err = runtime.Execute(sp.code, sp.input, cfg)
+		noGas = true
+	default:
+		o.ret, o.gasLeft, _, err = vm.Call(evm.AccountRef(aSender), target, token, sp.input, sp.gas, sp.value)
 	}
+	o.otxs = len(vm.GetOTxs())
 	timer.Stop()
 	mu.Lock()
 	o.timeout = fired
@@ -442,7 +527,8 @@ func execute(sp *spec) (o out) {
 	o.logs = hex.EncodeToString(h.Sum(nil)[:8])
 	o.rootAfter = st.IntermediateRoot(false)
 	o.steps, o.subFrames, o.memGrew, o.maxGas, o.maxGasAt, o.simFrames, o.innerFail, o.work = tr.steps, tr.subFrames, tr.memGrew, tr.maxGas, tr.maxGasAt, tr.simFrames, tr.innerFail, tr.work
-	tr.emit(fmt.Sprintf("end gasleft=%d status=%s trunc=%d", o.gasLeft, o.status, b2i(tr.trunc || o.timeout)))
+	o.cancelled = tr.cancelled
+	tr.emit(fmt.Sprintf("end gasleft=%d status=%s trunc=%d", o.gasLeft, o.status, b2i(tr.trunc || o.timeout || noGas || tr.cancelled)))
 	if tr.trunc && !strings.HasPrefix(tr.lines[len(tr.lines)-1], "end ") {
 		// the end line always travels, even when the step lines were capped
 		tr.lines[len(tr.lines)-1] = fmt.Sprintf("end gasleft=%d status=%s trunc=1", o.gasLeft, o.status)
@@ -459,7 +545,7 @@ func b2i(b bool) int {
 }
 
 func (o *out) digest() string {
-	return fmt.Sprintf("ret=%x gas=%d status=%s root=%x logs=%s refund=%d/%d steps=%d lines=%x", o.ret, o.gasLeft, o.status, o.rootAfter, o.logs, o.refundFee, o.refundAll, o.steps,
+	return fmt.Sprintf("ret=%x gas=%d status=%s root=%x logs=%s refund=%d/%d bcg=%d otxs=%d steps=%d lines=%x", o.ret, o.gasLeft, o.status, o.rootAfter, o.logs, o.refundFee, o.refundAll, o.byteCodeGas, o.otxs, o.steps,
 		sha256.Sum256([]byte(strings.Join(o.lines, "\n"))))
 }
 
@@ -470,7 +556,7 @@ func runOp(sp *spec) string {
 	if sp.token {
 		tk = 1
 	}
-	return fmt.Sprintf("run mode=%s gas=%d value=%s token=%d lines=%d code=%s code2=%s input=%s", sp.mode, sp.gas, sp.value, tk, sp.maxLns, hx.Hex(sp.code), hx.Hex(sp.code2), hx.Hex(sp.input))
+	return fmt.Sprintf("run mode=%s gas=%d value=%s token=%d lines=%d norec=%d preimg=%d cancel=%d fresh=%d code=%s code2=%s input=%s", sp.mode, sp.gas, sp.value, tk, sp.maxLns, b2i(sp.norec), b2i(sp.preimg), sp.cancel, b2i(sp.fresh), hx.Hex(sp.code), hx.Hex(sp.code2), hx.Hex(sp.input))
 }
 
 func parseRun(toks []string) *spec {
@@ -487,6 +573,14 @@ func parseRun(toks []string) *spec {
 	if sp.maxLns <= 0 {
 		sp.maxLns = 400
 	}
+	nr, _ := hx.Arg(toks, "norec")
+	sp.norec = nr == "1"
+	pi, _ := hx.Arg(toks, "preimg")
+	sp.preimg = pi == "1"
+	fr, _ := hx.Arg(toks, "fresh")
+	sp.fresh = fr == "1"
+	cn, _ := hx.Arg(toks, "cancel")
+	sp.cancel, _ = strconv.Atoi(cn)
 	c, _ := hx.Arg(toks, "code")
 	sp.code = hx.UnHex(c)
 	c2, _ := hx.Arg(toks, "code2")
@@ -501,7 +595,45 @@ type record struct {
 	a, b out
 }
 
+// one direct execution of a precompiled contract (RunPrecompiledContract), done twice
+type preRec struct {
+	set       string
+	addr      int
+	gas       uint64
+	inLen     int
+	left      [2]uint64
+	out       [2]string
+	errText   [2]string
+	required  uint64
+	known     bool
+}
+
+func runPre(set string, addr int, gas uint64, in []byte) *preRec {
+	r := &preRec{set: set, addr: addr, gas: gas, inLen: len(in)}
+	m := evm.PrecompiledContractsHomestead
+	if set == "b" {
+		m = evm.PrecompiledContractsByzantium
+	}
+	p := m[common.BytesToAddress([]byte{byte(addr)})]
+	if p == nil {
+		return r
+	}
+	r.known = true
+	r.required = p.RequiredGas(in)
+	for i := 0; i < 2; i++ {
+		c := evm.NewContract(evm.AccountRef(aSender), evm.AccountRef(common.BytesToAddress([]byte{byte(addr)})), new(big.Int), gas)
+		ret, err := evm.RunPrecompiledContract(p, append([]byte{}, in...), c)
+		r.left[i] = c.Gas
+		r.out[i] = fmt.Sprintf("%x", sha256.Sum256(ret))[:16] + fmt.Sprintf("/%d", len(ret))
+		if err != nil {
+			r.errText[i] = err.Error()
+		}
+	}
+	return r
+}
+
 type exec struct {
+	pres []*preRec
 	runs []*record
 	cur  *record
 	next int // index of the next expected trace line of the current run
@@ -517,22 +649,56 @@ func (e *exec) Exec(op string) string {
 	toks := hx.Tokens(op)
 	switch toks[0] {
 	case "case":
-		e.runs, e.cur, e.next = nil, nil, 0
+		e.runs, e.cur, e.next, e.pres = nil, nil, 0, nil
 		return "ok"
 	case "run":
 		sp := parseRun(toks)
 		r := &record{sp: sp}
+		// the two re-executions are independent (fresh worlds, fresh EVMs): run them side by side
+		var wg sync.WaitGroup
+		wg.Add(1)
+		go func() { defer wg.Done(); r.b = execute(sp) }()
 		r.a = execute(sp)
-		r.b = execute(sp)
+		wg.Wait()
 		e.runs = append(e.runs, r)
 		e.cur, e.next = r, 0
 		if r.a.panicSite != "" {
 			return "panic " + r.a.panicSite
 		}
 		return "ok"
+	case "pre":
+		set, _ := hx.Arg(toks, "set")
+		a, _ := hx.Arg(toks, "addr")
+		ai, _ := strconv.Atoi(a)
+		g, _ := hx.Arg(toks, "gas")
+		gas, _ := strconv.ParseUint(g, 10, 64)
+		in, _ := hx.Arg(toks, "in")
+		r := runPre(set, ai, gas, hx.UnHex(in))
+		e.pres = append(e.pres, r)
+		if !r.known {
+			return "none"
+		}
+		if r.errText[0] == evm.ErrOutOfGas.Error() && r.left[0] == gas {
+			return "oog"
+		}
+		return fmt.Sprintf("charged=%d", gas-r.left[0])
+	case "opsseen":
+		return "ok"
+	case "upgrade":
+		st := buildWorld(&spec{mode: "call", value: new(big.Int)})
+		before := st.IntermediateRoot(false)
+		vm := runtime.NewEnv(&runtime.Config{Origin: aSender, BlockNumber: big.NewInt(100), Time: big.NewInt(1), Difficulty: big.NewInt(1), GasLimit: 100000, GasPrice: big.NewInt(1), Value: new(big.Int), State: st})
+		err := vm.Upgrade(evm.AccountRef(aSender), aMain, []byte{0x00})
+		if err == nil || st.IntermediateRoot(false) != before {
+			return "changed"
+		}
+		return "err"
 	case "enter", "s", "fault", "end":
 		if e.cur == nil {
 			return "stale:no-run"
+		}
+		if e.cur.a.timeout || (toks[0] == "end" && strings.HasSuffix(op, "trunc=1") && strings.Contains(op, "status=")) && e.cur.sp.cancel == 0 && !e.cur.a.trunc {
+			return "ok" // this or the generator's execution was cut short by the wall clock (loaded machine): nothing to compare
 		}
 		if e.next < len(e.cur.a.lines) && e.cur.a.lines[e.next] == op {
 			e.next++
@@ -568,6 +734,24 @@ func (p *P) Monitor(c *hx.CaseRun) []hx.Failure {
 	if p.last == nil {
 		return fs
 	}
+	for _, r := range p.last.pres {
+		tag := fmt.Sprintf("precompile %s/%d gas=%d inlen=%d: ", r.set, r.addr, r.gas, r.inLen)
+		if !r.known {
+			continue
+		}
+		if r.left[0] != r.left[1] || r.out[0] != r.out[1] || r.errText[0] != r.errText[1] {
+			add("deterministic", "precompile-nondeterministic", "vm/evm/contracts.go:Run", tag+"two runs differ")
+		}
+		if r.left[0] > r.gas {
+			add("gas_bounded", "precompile-gas-grew", "vm/evm/contracts.go:RunPrecompiledContract", tag+fmt.Sprintf("gas left %d", r.left[0]))
+		}
+		if r.gas >= r.required && r.gas-r.left[0] != r.required {
+			add("metered", "precompile-charge-differs-from-required", "vm/evm/contracts.go:RunPrecompiledContract", tag+fmt.Sprintf("charged %d, RequiredGas %d", r.gas-r.left[0], r.required))
+		}
+		if r.gas < r.required && (r.left[0] != r.gas || r.errText[0] != evm.ErrOutOfGas.Error() || !strings.HasSuffix(r.out[0], "/0")) {
+			add("metered", "precompile-ran-without-gas", "vm/evm/contracts.go:RunPrecompiledContract", tag+fmt.Sprintf("required %d > gas, but left %d err %q out %s", r.required, r.left[0], r.errText[0], r.out[0]))
+		}
+	}
 	for i, r := range p.last.runs {
 		a, b := &r.a, &r.b
 		tag := fmt.Sprintf("run %d (mode=%s gas=%d value=%s): ", i, r.sp.mode, r.sp.gas, r.sp.value)
@@ -578,6 +762,9 @@ func (p *P) Monitor(c *hx.CaseRun) []hx.Failure {
 			}
 			add("no_panic", "panic "+site, site, tag+"panic")
 			continue
+		}
+		if (a.timeout || b.timeout) && a.maxGas <= r.sp.gas && a.work <= r.sp.gas+uint64(a.subFrames)*2300 && b.work <= r.sp.gas+uint64(b.subFrames)*2300 {
+			continue // slow, but metered so far: the wall clock says nothing about the property
 		}
 		if a.timeout || b.timeout {
 			cls := "timeout"
